@@ -434,8 +434,44 @@ impl SubCheck for DtLeap {
     }
 }
 
+// ---------------------------------------------------------------------------------------------
+pub struct DtDiff;
+impl SubCheck for DtDiff {
+    type Case = (i64, T, i64, T);
+    fn name(&self) -> &'static str {
+        "datetime_difference"
+    }
+    fn rule(&self) -> &'static str {
+        "case = two (date, time incl. leap representations); NaiveDateTime::signed_duration_since and the - operator (also through DateTime<Utc>) = whole days between the dates plus the time-of-day difference of the timeline model, antisymmetric; non-trivial = a leap operand with the dates different, or a leap operand and times less than 2 s apart"
+    }
+    fn strategy(&self) -> Option<BoxedStrategy<Self::Case>> {
+        let near = (gen::day(), tod(), -3i64..=3, -2i64..=2, 0u32..2_000_000_000).prop_map(|(z, a, dz, ds, f)| {
+            let zb = (z + dz).clamp(cal::min_day(), cal::max_day());
+            (z, a, zb, T { secs: (a.secs as i64 + ds).clamp(0, 86_399) as u32, frac: f })
+        });
+        Some(prop_oneof![3 => near, 2 => (gen::day(), tod(), gen::day(), tod()), 2 => (gen::day(), tod(), -400i64..=400, tod()).prop_map(|(z, a, dz, b)| (z, a, (z + dz).clamp(cal::min_day(), cal::max_day()), b))].boxed())
+    }
+    fn check(&self, &(za, ta, zb, tb): &Self::Case, obs: &mut Obs) -> Result<(), String> {
+        classify_t(ta, obs);
+        classify_t(tb, obs);
+        obs.nt_if((ta.leap() || tb.leap()) && za != zb, "leap_operand_on_another_date");
+        obs.nt_if((ta.leap() || tb.leap()) && (ta.secs as i64 - tb.secs as i64).abs() <= 2, "leap_operand_close_times");
+        let a = conv::date(za).and_time(ta.build()?);
+        let b = conv::date(zb).and_time(tb.build()?);
+        let exp = (za - zb) as i128 * 86_400 * NS + model_diff(ta, tb);
+        let ns = |d: TimeDelta| d.num_seconds() as i128 * NS + d.subsec_nanos() as i128;
+        let got = call("NaiveDateTime::signed_duration_since", || a.signed_duration_since(b))?;
+        ensure_eq!(ns(got), exp, "({za}, {ta:?}) - ({zb}, {tb:?})");
+        ensure_eq!(ns(call("NaiveDateTime::signed_duration_since", || b.signed_duration_since(a))?), -exp, "antisymmetry of ({za}, {ta:?}) - ({zb}, {tb:?})");
+        ensure_eq!(call("NaiveDateTime - NaiveDateTime", || a - b)?, got, "operator form");
+        ensure_eq!(call("DateTime - DateTime", || a.and_utc() - b.and_utc())?, got, "DateTime<Utc> operator form");
+        ensure_eq!(call("DateTime::signed_duration_since", || a.and_utc().signed_duration_since(b.and_utc()))?, got, "DateTime<Utc>::signed_duration_since");
+        Ok(())
+    }
+}
+
 pub fn subs() -> Vec<Box<dyn DynSub>> {
-    vec![Box::new(Ctor), Box::new(Replace), Box::new(Add), Box::new(Diff), Box::new(Offset), Box::new(DtLeap)]
+    vec![Box::new(Ctor), Box::new(Replace), Box::new(Add), Box::new(Diff), Box::new(Offset), Box::new(DtLeap), Box::new(DtDiff)]
 }
 
 pub fn run(ctx: &Ctx) {
@@ -473,4 +509,5 @@ pub fn run(ctx: &Ctx) {
     ctx.run_prop(&Diff, n);
     ctx.run_prop(&Offset, n / 2);
     ctx.run_prop(&DtLeap, n / 2);
+    ctx.run_prop(&DtDiff, n / 2);
 }
